@@ -613,6 +613,7 @@ type recvWalker struct {
 	others map[types.Object]string // other local variables/params of tracked types -> "Type"
 	shared map[types.Object]bool   // of those: possibly the caller's object
 	parIdx map[types.Object]int    // of those: parameters of this function -> index
+	ifacePar map[types.Object]bool // parameters declared as codec.Parameters (the caller's object behind an interface)
 	alias  map[types.Object]string // local variables holding (part of) a reference-typed receiver field -> field
 	retFresh map[types.Object]bool // functions of this package that always return a new object
 	errRes bool
@@ -905,6 +906,10 @@ func (w *recvWalker) call(x *ast.CallExpr, d int) {
 			if tn, ok := w.others[obj]; ok && obj != nil {
 				k, nm, _ := w.tag("M", obj, tn+"."+f.Sel.Name)
 				w.add(k, nm, d)
+				return
+			}
+			if obj != nil && w.ifacePar[obj] {
+				w.add("I", "Parameters."+f.Sel.Name, d) // method of the caller's parameters object, through the interface
 				return
 			}
 		}
@@ -1538,6 +1543,13 @@ func (p *Pkg) analyseTracked(out *factsOut) {
 					idx++
 				}
 			}
+			if len(tgts) == 0 {
+				for _, fl := range fd.Type.Params.List {
+					if ts := types.ExprString(fl.Type); ts == "codec.Parameters" {
+						out.nondet[p.Dir+"\t"+funcName(fd)+"\tcodec.Parameters-outside-tracked-types"] = true
+					}
+				}
+			}
 			errRes := false
 			if fd.Type.Results != nil && len(fd.Type.Results.List) > 0 {
 				last := fd.Type.Results.List[len(fd.Type.Results.List)-1]
@@ -1547,7 +1559,7 @@ func (p *Pkg) analyseTracked(out *factsOut) {
 			}
 			for _, t := range tgts {
 				w := &recvWalker{p: p, recv: t.obj, fields: fieldsOf(t.typ), meths: meths[t.typ],
-					others: map[types.Object]string{}, shared: map[types.Object]bool{}, parIdx: map[types.Object]int{}, alias: map[types.Object]string{},
+					others: map[types.Object]string{}, shared: map[types.Object]bool{}, parIdx: map[types.Object]int{}, alias: map[types.Object]string{}, ifacePar: map[types.Object]bool{},
 					retFresh: retFresh, errRes: errRes}
 				// other variables of tracked types in this function (parameter objects seen by codecs)
 				ast.Inspect(fd, func(n ast.Node) bool {
@@ -1570,6 +1582,12 @@ func (p *Pkg) analyseTracked(out *factsOut) {
 				// are assigned from anything other than a call / composite literal / &literal
 				pi := 0
 				for _, fl := range fd.Type.Params.List {
+					ts := types.ExprString(fl.Type)
+					for _, nm := range fl.Names {
+						if o := p.Info.Defs[nm]; o != nil && (ts == "codec.Parameters" || strings.HasSuffix(ts, ".Parameters") && !strings.HasPrefix(ts, "*")) {
+							w.ifacePar[o] = true
+						}
+					}
 					for _, nm := range fl.Names {
 						if o := p.Info.Defs[nm]; o != nil {
 							if _, ok := w.others[o]; ok {
@@ -2041,6 +2059,7 @@ func genFacts() error {
 	sb.WriteString("     MS T.m   ... on an object that may be the caller's;   MP T.m#i  ... on parameter i of this function\n")
 	sb.WriteString("     F T.f / FS T.f / FP T.f#i   field f of such an object stored directly (same three cases)\n")
 	sb.WriteString("     P g#i / PS g#i / PP g#i#j   such an object passed as argument i of g (PP: it is our parameter j)\n")
+	sb.WriteString("     I Parameters.m   method m called on a parameter declared as codec.Parameters (the caller's object, via the interface)\n")
 	sb.WriteString("     X     return (no error; also falling off the end)   E   return with a non-nil error expression\n")
 	sb.WriteString("     B     a conditionally executed region (branch, loop body, case, closure, right operand of && ||) starts at this depth\n")
 	sb.WriteString("     S     the receiver itself escapes (returned, stored or passed on) *)\n")
